@@ -1051,15 +1051,29 @@ def _nodelist_to_slot_render_func(
         # HOWEVER, the layer with `_COMPONENT_CONTEXT_KEY` also contains user-defined data from `get_context_data()`.
         # Data from `get_context_data()` should take precedence over `extra_context`. So we have to insert
         # the forloop variables BEFORE that.
-        index_of_last_component_layer = get_last_index(ctx.dicts, lambda d: _COMPONENT_CONTEXT_KEY in d)
-        if index_of_last_component_layer is None:
-            index_of_last_component_layer = 0
+        #
+        # NOTE: That applies when the fill is rendered in the context of the component that owns the slot
+        # ("django" mode - the context is the very one that `SlotNode.render()` captured in `slot_ref`).
+        # The top-most layer was pushed by `SlotNode.render()` and may override `_COMPONENT_CONTEXT_KEY`
+        # to point to the component where the fill was defined, so the slot's owner is the component
+        # that the layers BELOW the top-most one point to.
+        if getattr(slot_ref, "_context", None) is ctx:
+            layers_below = reversed(ctx.dicts[:-1])
+            owner_id = next((d[_COMPONENT_CONTEXT_KEY] for d in layers_below if _COMPONENT_CONTEXT_KEY in d), None)
+            index_of_last_component_layer = get_index(ctx.dicts, lambda d: d.get(_COMPONENT_CONTEXT_KEY) == owner_id)
+            if owner_id is None or index_of_last_component_layer is None:
+                index_of_last_component_layer = 0
 
-        # TODO: Currently there's one more layer before the `_COMPONENT_CONTEXT_KEY` layer, which is
-        #       pushed in `_prepare_template()` in `component.py`.
-        #       That layer should be removed when `Component.get_template()` is removed, after which
-        #       the following line can be removed.
-        index_of_last_component_layer -= 1
+            # TODO: Currently there's one more layer before the `_COMPONENT_CONTEXT_KEY` layer, which is
+            #       pushed in `_prepare_template()` in `component.py`.
+            #       That layer should be removed when `Component.get_template()` is removed, after which
+            #       the following line can be removed.
+            index_of_last_component_layer -= 1
+        # Otherwise ("isolated" mode) the context is the one in which the fill was defined. There,
+        # the variables defined between `{% component %}` and `{% fill %}` shadow everything else.
+        # Only the layer pushed by `SlotNode.render()`, which holds the slot data, stays on top.
+        else:
+            index_of_last_component_layer = max(len(ctx.dicts) - 1, 0)
 
         # Insert the `extra_context` layer BEFORE the layer that defines the variables from get_context_data.
         # Thus, get_context_data will overshadow these on conflict.
